@@ -31,4 +31,15 @@ impl<I: Iterator, F: Fn(I::Item) -> ControlFlow<I::Item, I>> Iterator for Stack<
             }
         }
     }
+
+    /// If no iterator on the stack can yield anything, then neither can the stack.
+    ///
+    /// This allows an enclosing stack to discard this one instead of leaving it behind.
+    fn size_hint(&self) -> (usize, Option<usize>) {
+        if self.0.iter().all(|i| i.size_hint() == (0, Some(0))) {
+            (0, Some(0))
+        } else {
+            (0, None)
+        }
+    }
 }
